@@ -31,3 +31,71 @@ package redis
 //@ prop C13 C09
 //@ ensures[manager-over-this-redis-store-with-the-cookie-options] ret1 == nil ==> called(NewManager) && arg(NewManager, 1) == cookieOpts
 //@ ensures[client-error-is-an-error] ret1(NewRedisClient) != nil ==> ret1 != nil && ret0 == nil
+
+// ------------------------------------------------------------------ C12 / C13: the session lock fails closed
+//@ func (*Lock).Obtain
+//@ prop C13 C12
+//@ ensures[success-only-after-a-successful-lock-command] ret0 == nil ==> called(Obtain) && ret1(Obtain) == nil && l.lock == ret0(Obtain)
+//@ ensures[lock-command-error-is-reported] ret1(Obtain) != nil ==> ret0 != nil
+//@ at call Obtain assert[locks-this-sessions-key] arg(Obtain, 0) == l.locker && arg(Obtain, 2) == l.key + ".lock" && arg(Obtain, 3) == expiration
+
+//@ func (*Lock).Refresh
+//@ prop C13 C12
+//@ ensures[not-locked-is-an-error] old(l.lock) == nil ==> ret0 != nil && !called(Refresh)
+//@ ensures[success-only-after-a-successful-refresh-command] ret0 == nil ==> called(Refresh) && ret(Refresh) == nil && arg(Refresh, 0) == old(l.lock)
+//@     && arg(Refresh, 2) == expiration
+
+//@ func (*Lock).Release
+//@ prop C13 C12
+//@ ensures[not-locked-is-an-error] old(l.lock) == nil ==> ret0 != nil && !called(Release)
+//@ ensures[success-only-after-a-successful-release-command] ret0 == nil ==> called(Release) && ret(Release) == nil && arg(Release, 0) == old(l.lock)
+
+//@ func (*Lock).Peek
+//@ prop C13 C12
+//@ ensures[command-error-is-reported] ret1(Result) != nil ==> ret1 != nil && !ret0
+//@ ensures[held-iff-the-lock-key-exists] ret1(Result) == nil ==> ret1 == nil && (ret0 <==> ret0(Result) != 0)
+//@ at call Exists assert[asks-about-this-sessions-lock-key] arg(Exists, 1)[0] == l.key + ".lock" && len(arg(Exists, 1)) == 1 && recv(Exists) == l.client
+
+//@ func NewLock
+//@ prop C13 C12
+//@ fresh
+//@ ensures[lock-for-this-key-not-yet-held] result != nil
+
+//@ func (*SessionStore).Lock
+//@ prop C13 C12
+//@ ensures[lock-of-the-client-for-this-key] result == ret(Lock) && arg(Lock, 0) == key && recv(Lock) == old(store.Client)
+
+// the two client wrappers pass commands and their errors through
+//@ func (*client).Get
+//@ prop C13
+//@ ensures[passthrough] ret0 == ret0(Bytes) && ret1 == ret1(Bytes) && recv(Bytes) == ret(Get) && arg(Get, 2) == key
+//@ func (*client).Set
+//@ prop C13 C09
+//@ ensures[passthrough] ret0 == ret(Err) && recv(Err) == &ret(Set).baseCmd && arg(Set, 2) == key && arg(Set, 4) == expiration
+//@ func (*client).Del
+//@ prop C13 C11
+//@ ensures[passthrough] ret0 == ret(Err) && recv(Err) == &ret(Del).baseCmd
+//@ at call Del assert[deletes-exactly-this-key] len(arg(Del, 2)) == 1 && arg(Del, 2)[0] == key
+//@ func (*client).Ping
+//@ prop C13
+//@ ensures[passthrough] ret0 == ret(Err) && recv(Err) == &ret(Ping).baseCmd
+//@ func (*client).Lock
+//@ prop C13 C12
+//@ ensures[a-lock-for-this-key] result == ret(NewLock) && arg(NewLock, 1) == key
+
+//@ func (*clusterClient).Get
+//@ prop C13
+//@ ensures[passthrough] ret0 == ret0(Bytes) && ret1 == ret1(Bytes) && recv(Bytes) == ret(Get) && arg(Get, 2) == key
+//@ func (*clusterClient).Set
+//@ prop C13 C09
+//@ ensures[passthrough] ret0 == ret(Err) && recv(Err) == &ret(Set).baseCmd && arg(Set, 2) == key && arg(Set, 4) == expiration
+//@ func (*clusterClient).Del
+//@ prop C13 C11
+//@ ensures[passthrough] ret0 == ret(Err) && recv(Err) == &ret(Del).baseCmd
+//@ at call Del assert[deletes-exactly-this-key] len(arg(Del, 2)) == 1 && arg(Del, 2)[0] == key
+//@ func (*clusterClient).Ping
+//@ prop C13
+//@ ensures[passthrough] ret0 == ret(Err) && recv(Err) == &ret(Ping).baseCmd
+//@ func (*clusterClient).Lock
+//@ prop C13 C12
+//@ ensures[a-lock-for-this-key] result == ret(NewLock) && arg(NewLock, 1) == key
